@@ -43,8 +43,9 @@ type Kernel struct {
 	MaxSteps        int64                     `json:"max_steps"`
 	MaxPaths        map[string]int64          `json:"max_paths"`
 	DeadlineS       map[string]int            `json:"deadline_s"`
-	WithPkgs        []string                  `json:"with_pkgs"` // other packages whose harness files must be overlaid too
-	Tiers           []string                  `json:"tiers"` // tiers in which the kernel runs (default both)
+	PreemptBound    map[string]int            `json:"preempt_bound"` // max preemptions per execution (absent = unbounded)
+	WithPkgs        []string                  `json:"with_pkgs"`     // other packages whose harness files must be overlaid too
+	Tiers           []string                  `json:"tiers"`         // tiers in which the kernel runs (default both)
 	Desc            string                    `json:"desc"`
 	Bounds          map[string]string         `json:"bounds"` // tier -> human readable bound
 	Assumes         []string                  `json:"assumes"`
@@ -274,7 +275,7 @@ func runKernel(ld *Loaded, k *Kernel, tier string, workers int, solverKind strin
 	if k.MaxSteps > 0 {
 		maxSteps = k.MaxSteps
 	}
-	ex := &Explorer{prog: ld.prog, kernel: k, entry: entry, stubs: stubs, params: params, workers: workers, solverKind: solverKind, timeoutMs: timeout, maxSteps: maxSteps}
+	ex := &Explorer{prog: ld.prog, kernel: k, entry: entry, stubs: stubs, params: params, workers: workers, solverKind: solverKind, timeoutMs: timeout, maxSteps: maxSteps, tier: tier}
 	if v, ok := k.MaxPaths[tier]; ok {
 		ex.maxPaths = v
 	}
@@ -332,7 +333,7 @@ func runConcrete(ld *Loaded, k *Kernel, tier string, vector []uint64, params map
 			params[n] = v
 		}
 	}
-	ex := &Explorer{prog: ld.prog, kernel: k, entry: entry, stubs: stubs, params: params, workers: 1, solverKind: "z3", timeoutMs: 10000, maxSteps: 50_000_000}
+	ex := &Explorer{prog: ld.prog, kernel: k, entry: entry, stubs: stubs, params: params, workers: 1, solverKind: "z3", timeoutMs: 10000, maxSteps: 50_000_000, tier: tier}
 	in, err := ex.newInterp()
 	if err != nil {
 		return pathEnd{}, nil, nil, err
